@@ -74,6 +74,22 @@ func (i *insertOnUpdateExecutor) ExecContext(ctx context.Context, f exec.Callbac
 		return nil, err
 	}
 
+	if len(beforeImage.Rows) > 0 && len(afterImage.Rows) > len(beforeImage.Rows) {
+		// the statement updated some rows and inserted others: the rows that were there are undone by an
+		// update, the new ones by an insert undo (a delete) - one undo item each
+		updated, inserted := splitAfterImage(beforeImage, afterImage)
+		beforeImage.SQLType = types.SQLTypeUpdate
+		updated.SQLType = types.SQLTypeUpdate
+		i.execContext.TxCtx.RoundImages.AppendBeofreImage(beforeImage)
+		i.execContext.TxCtx.RoundImages.AppendAfterImage(updated)
+		inserted.SQLType = types.SQLTypeInsert
+		i.execContext.TxCtx.RoundImages.AppendBeofreImage(&types.RecordImage{
+			TableName: beforeImage.TableName, TableMeta: beforeImage.TableMeta, SQLType: types.SQLTypeInsert,
+		})
+		i.execContext.TxCtx.RoundImages.AppendAfterImage(inserted)
+		return res, nil
+	}
+
 	if len(beforeImage.Rows) > 0 {
 		beforeImage.SQLType = types.SQLTypeUpdate
 		afterImage.SQLType = types.SQLTypeUpdate
@@ -85,6 +101,35 @@ func (i *insertOnUpdateExecutor) ExecContext(ctx context.Context, f exec.Callbac
 	i.execContext.TxCtx.RoundImages.AppendBeofreImage(beforeImage)
 	i.execContext.TxCtx.RoundImages.AppendAfterImage(afterImage)
 	return res, nil
+}
+
+// splitAfterImage divides the rows of the after image into those whose primary key is in the before image
+// (updated by the statement) and the others (inserted by it)
+func splitAfterImage(beforeImage, afterImage *types.RecordImage) (updated, inserted *types.RecordImage) {
+	pkText := func(row types.RowImage) string {
+		var sb strings.Builder
+		for _, col := range row.Columns {
+			if col.KeyType == types.IndexTypePrimaryKey {
+				sb.WriteString(strings.ToUpper(col.ColumnName))
+				sb.WriteString(fmt.Sprintf("=%v;", col.Value))
+			}
+		}
+		return sb.String()
+	}
+	existed := make(map[string]bool, len(beforeImage.Rows))
+	for _, row := range beforeImage.Rows {
+		existed[pkText(row)] = true
+	}
+	updated = &types.RecordImage{TableName: afterImage.TableName, TableMeta: afterImage.TableMeta}
+	inserted = &types.RecordImage{TableName: afterImage.TableName, TableMeta: afterImage.TableMeta}
+	for _, row := range afterImage.Rows {
+		if existed[pkText(row)] {
+			updated.Rows = append(updated.Rows, row)
+		} else {
+			inserted.Rows = append(inserted.Rows, row)
+		}
+	}
+	return updated, inserted
 }
 
 // beforeImage build before image
